@@ -367,8 +367,65 @@ def replay(names):
     return 1 if part.violations else 0
 
 
+REREG_FORMS = [
+    ("Scalar(1.0, u, c)", lambda u, c: Scalar(1.0, u, c)),
+    ("Scalar(1.0, u)", lambda u, c: Scalar(1.0, u)),
+    ("Array([1.0], u, c)", lambda u, c: Array([1.0], u, c)),
+    ("Array([1.0], u)", lambda u, c: Array([1.0], u)),
+    ("ObtainQuantity(u, c)", lambda u, c: ObtainQuantity(u, c)),
+    ("ObtainQuantity(u)", lambda u, c: ObtainQuantity(u)),
+    ("FractionScalar(1.0, u)", lambda u, c: FractionScalar(1.0, u)),
+    ("Scalar(ObtainQuantity(u), 1.0)", lambda u, c: Scalar(ObtainQuantity(u), 1.0)),
+]
+
+
+def _rereg_task(_):
+    """A category changes its quantity type (AddCategory(..., override=True)): afterwards the units of the OLD type do
+    not belong to it, so every way of building a value of that category with one of them fails loudly - with the
+    category spelled out or resolved from the unit, whether or not the same lookups were served before the
+    re-registration - and the rejections change nothing.  Small hand-registered database, every ordered pair of
+    (old type, new type), four kinds of earlier use."""
+    part = Part()
+    types = {"length": ["m", "cm", "km"], "time": ["s", "min"], "temperature": ["K", "degC"]}
+    for old in types:
+        for new in types:
+            if old == new:
+                continue
+            for first in ("nothing first", "category-less lookups first", "lookups with the category first", "category-less lookups of one unit first"):
+                db = worlds.mini("base")
+                with worlds.installed(db):
+                    units = [u for u in types[old] if u in db.unit_to_unit_info]
+                    seen = units if "one unit" not in first else units[:1]
+                    if not first.startswith("nothing"):
+                        for u in seen:
+                            for fname, f in REREG_FORMS:
+                                if ("u, c" in fname) == first.startswith("lookups with"):
+                                    f(u, old)
+                    db.AddCategory(old, new, override=True)
+                    fp = c14.fingerprint(db)
+                    for u in units:
+                        for fname, f in REREG_FORMS:
+                            sig = "C05:category %s re-registered as %s (%s): %s with u=%s" % (old, new, first, fname, u)
+                            snippet = ("from mc import worlds\nfrom barril.units import *\nfrom barril.units import ObtainQuantity\ndb = worlds.mini('base')\nwith worlds.installed(db):\n"
+                                       + "".join("    %s\n" % g.replace("u", repr(w)).replace(", c", ", %r" % old) for w in seen for g, _f in REREG_FORMS if not first.startswith("nothing") and (("u, c" in g) == first.startswith("lookups with")))
+                                       + "    db.AddCategory(%r, %r, override=True)\n    try:\n        r = %s\n    except Exception as e:\n        print('raised', repr(e))\n    else:\n        raise SystemExit('built %%r' %% (r,))\n" % (old, new, fname.replace("u", repr(u)).replace(", c", ", %r" % old)))
+                            _loud(part, sig, lambda: f(u, old), {"unit": u, "category": old, "category_quantity_type_now": new}, snippet)
+                    for w in types[new]:
+                        part.count("evaluations")
+                        try:
+                            ok = Scalar(2.0, w, old).GetQuantityType() == new
+                        except Exception as e:
+                            ok = repr(e)
+                        if ok is not True:
+                            part.violation("C05:category %s re-registered as %s (%s): a unit of the new type is not accepted: %s" % (old, new, first, w), {"outcome": ok})
+                    if c14.fingerprint(db) != fp:
+                        part.violation("C05:category %s re-registered as %s (%s): the rejected constructions changed the registry" % (old, new, first), {})
+                    part.count("reregistration_histories")
+    return part
+
+
 def _dispatch(task):
-    return {"legacy": _legacy_task, "construct": _construct_task, "convert": _convert_task, "derived": _derived_task, "hist": _hist_task}[task[0]](task[1])
+    return {"rereg": _rereg_task, "legacy": _legacy_task, "construct": _construct_task, "convert": _convert_task, "derived": _derived_task, "hist": _hist_task}[task[0]](task[1])
 
 
 def run(ctx):
@@ -385,6 +442,7 @@ def run(ctx):
 
     tasks += [("legacy", c) for c in chunks(legacy_spellings(set(units)), 16)]
     tasks += [("hist", (depth, [i])) for i in range(len(HOPS))]
+    tasks.append(("rereg", None))
     run_sharded(ctx, _dispatch, tasks)
     c = ctx.part.counters
     ctx.level = "model_checking"
@@ -393,7 +451,8 @@ def run(ctx):
     ctx.traces = c.get("transitions", 0)
     ctx.rule = (
         "(a) every cross-type (unit, category) of posc through the constructors, every cross-type unit pair (%s) through the conversions, every derivable legacy spelling x every foreign quantity type through 17 conversion / construction / arithmetic entry points, every ordered pair of depth-2 derived states with different dimension vectors through + - < <= > >=; "
-        "(b) every sequence of length <= %d over %d valid and %d invalid operations (no de-duplication); non-trivial = cross-type inputs + histories that contain a rejected step before the judged one; outcomes = distinct exception classes / canonical outcomes"
+        "(b) every sequence of length <= %d over %d valid and %d invalid operations (no de-duplication); non-trivial = cross-type inputs + histories that contain a rejected step before the judged one; outcomes = distinct exception classes / canonical outcomes; "
+        "(c) a category re-registered with another quantity type (override=True) on a small database: 6 ordered type pairs x 4 kinds of earlier use x every unit of the old type x 8 construction forms"
         % ("all pairs" if ctx.thorough else "one representative target per foreign type", depth, len(VALID), len(INVALID))
     )
     ctx.coverage_extra = {
